@@ -22,10 +22,12 @@ type proxy struct {
 	mode   string // "pass" | "refuse" | "hole"
 	dials  int64  // accepted connections
 	// resetAfter > 0: reset the connection when the n-th client frame of the *next* connection was seen
-	resetAfter int
-	onFrame    func(n int, typ string)
-	onAccept   func()
-	closed     bool
+	resetAfter  int
+	onFrame     func(n int, typ string)
+	onAccept    func()
+	onCut       func() // called right before the link is cut by cutAfterS2C
+	cutAfterS2C int32  // 1: reset everything right after the next server->client data was forwarded
+	closed      bool
 }
 
 func newProxy(target string) (*proxy, error) {
@@ -38,8 +40,10 @@ func newProxy(target string) (*proxy, error) {
 	return p, nil
 }
 
-func (p *proxy) url() string { return fmt.Sprintf("opc.tcp://127.0.0.1:%d", p.ln.Addr().(*net.TCPAddr).Port) }
-func (p *proxy) Dials() int  { return int(atomic.LoadInt64(&p.dials)) }
+func (p *proxy) url() string {
+	return fmt.Sprintf("opc.tcp://127.0.0.1:%d", p.ln.Addr().(*net.TCPAddr).Port)
+}
+func (p *proxy) Dials() int { return int(atomic.LoadInt64(&p.dials)) }
 
 func (p *proxy) setMode(m string) { p.mu.Lock(); p.mode = m; p.mu.Unlock() }
 func (p *proxy) getMode() string  { p.mu.Lock(); defer p.mu.Unlock(); return p.mode }
@@ -87,7 +91,7 @@ func (p *proxy) loop() {
 		p.conns = append(p.conns, c, s)
 		p.mu.Unlock()
 		go p.pumpFrames(c, s, ra)
-		go func() { io.Copy(c, s); hardClose(c); hardClose(s) }()
+		go p.pumpBack(s, c)
 	}
 }
 
@@ -144,4 +148,37 @@ func (p *proxy) reset() {
 func (p *proxy) close() {
 	p.ln.Close()
 	p.reset()
+}
+
+// server -> client; with cutAfterS2C armed the link dies right after the next response was forwarded
+func (p *proxy) pumpBack(s, c net.Conn) {
+	defer c.Close()
+	defer s.Close()
+	buf := make([]byte, 64*1024)
+	for {
+		n, err := s.Read(buf)
+		if n > 0 {
+			if _, werr := c.Write(buf[:n]); werr != nil {
+				return
+			}
+			// only a MSG chunk counts (not ACK / OPN of a new connection)
+			if n >= 3 && string(buf[:3]) == "MSG" && atomic.CompareAndSwapInt32(&p.cutAfterS2C, 1, 0) {
+				if p.onCut != nil {
+					p.onCut()
+				}
+				// graceful close: a reset could discard the response the client has not read yet
+				p.mu.Lock()
+				cs := p.conns
+				p.conns = nil
+				p.mu.Unlock()
+				for _, x := range cs {
+					x.Close()
+				}
+				return
+			}
+		}
+		if err != nil {
+			return
+		}
+	}
 }
